@@ -149,13 +149,7 @@ Variable evu : uop -> V -> V.
 Variable eva : atom -> V.
 Variable evf : fn -> list V -> V.
 
-Fixpoint eval (e : expr) : V :=
-  match e with
-  | Atom a => eva a
-  | Bin o l r => ev o (eval l) (eval r)
-  | Un u x => evu u (eval x)
-  | Call f args => evf f (map eval args)
-  end.
+Notation eval := (Pratt.eval op uop atom fn V ev evu eva evf).
 
 Definition rot_ok (p : op * op) : Prop :=
   forall x y z, ev (fst p) x (ev (snd p) y z) = ev (snd p) (ev (fst p) x y) z.
@@ -166,9 +160,9 @@ Proof.
   induction r as [a|o2 wl2 a IHa wr2 b IHb|u w x IHx|f args]; cbn [Pratt.dattach Pratt.spine_pairs]; try reflexivity.
   destruct (prec o2 =? prec o); [|reflexivity]. intros H.
   pose proof (H (o, o2) (or_introl eq_refl)) as R. unfold rot_ok in R. cbn [fst snd] in R.
-  cbn [erase eval]. destruct wl2 as [|k].
+  cbn [erase Pratt.eval]. destruct wl2 as [|k].
   - rewrite IHa; [symmetry; apply R|]. intros p Hp. apply H. right. exact Hp.
-  - cbn [erase eval]. symmetry. apply R.
+  - cbn [erase Pratt.eval]. symmetry. apply R.
 Qed.
 
 Theorem eval_dnorm d : (forall p, In p (rot_pairs d) -> rot_ok p) -> eval (erase (dnorm d)) = eval (erase d).
@@ -182,9 +176,9 @@ Proof.
     + rewrite eval_dattach.
       * rewrite IHl, IHr; auto.
       * intros p Hp. apply H. apply in_or_app; right; apply in_or_app; right. exact Hp.
-    + cbn [erase eval]. rewrite IHl, IHr; auto.
-  - cbn [erase eval]. rewrite IHx; auto.
-  - cbn [erase eval]. f_equal. rewrite !map_map. cbn [snd].
+    + cbn [erase Pratt.eval]. rewrite IHl, IHr; auto.
+  - cbn [erase Pratt.eval]. rewrite IHx; auto.
+  - cbn [erase Pratt.eval]. f_equal. rewrite !map_map. cbn [snd].
     rewrite Forall_forall in IH. apply map_ext_in. intros p Hp. apply IH; auto.
     intros q Hq. apply H. apply in_flat_map. exists p; auto.
 Qed.
